@@ -5,6 +5,7 @@ import (
 	"strings"
 
 	"github.com/vektah/gqlparser/v2/ast"
+	"github.com/vektah/gqlparser/v2/verifhook"
 
 	//nolint:staticcheck // Validator rules each use dot imports for convenience.
 	. "github.com/vektah/gqlparser/v2/validator"
@@ -21,6 +22,7 @@ var NoFragmentCyclesRule = Rule{
 
 			var recursive func(fragment *ast.FragmentDefinition)
 			recursive = func(fragment *ast.FragmentDefinition) {
+				verifhook.Step(verifhook.SiteNoFragmentCycles)
 				if visitedFrags[fragment.Name] {
 					return
 				}
